@@ -99,6 +99,14 @@ func (r *Run) Simulate(main func()) {
 		r.Sim.SwitchDen = []int{4, 16, 64, 256}[r.Tape.S("cfg").Choose(4, "switchden")]
 	}
 	r.Sim.SiteNames = SiteName
+	if p := os.Getenv("DSIM_TRACE"); p != "" {
+		if f, err := os.OpenFile(p, os.O_CREATE|os.O_WRONLY|os.O_APPEND, 0o644); err == nil {
+			defer f.Close()
+			r.Sim.OnStep = func(step int, name string, site int32) {
+				fmt.Fprintf(f, "%d %s %s\n", step, name, SiteName(site))
+			}
+		}
+	}
 	r.Sim.Run(main)
 	if r.Sim.Failure != "" {
 		switch r.Sim.Failure {
